@@ -367,3 +367,265 @@ func validateTable(c *Ctx, r *R) {
 			}})
 	}
 }
+
+func init() {
+	reg(&eng.Rule{ID: "C12.reconcile-gates", Prop: "C12", Floor: 3,
+		Doc: "ReconcileStaging (the first thing Apply does) reports success only after BOTH consistency checks were made — the policy reference against its latest log entry and the policy-staging reference against its latest log entry — and each of them equals its definition on every truth assignment of {reference found, log entry found, entry target equals the reference tip}: both found and equal, or neither found → go on; otherwise ErrInvalidPolicy.",
+		Run: reconcileGates})
+	reg(&eng.Rule{ID: "C13.names-registered", Prop: "C13", Floor: 2,
+		Doc: "State.preprocess registers the name of EVERY rule of every rule file in the set that backs the duplicate-name check: in each loop that tests ruleNames.Has(rule.ID()) the next rule is reached only after ruleNames.Add(rule.ID()) for the same rule (or an error return); no filter sits between the test and the registration.",
+		Run: namesRegistered})
+	reg(&eng.Rule{ID: "C13.migration-guards", Prop: "C13", Floor: 8,
+		Doc: "In the legacy→current migrations a field of the new metadata is filled unconditionally, inside a loop over the corresponding source collection, or under a nil-test of THAT source field only; a copy guarded by any other predicate (a role flag, another field) silently drops data for the inputs on which the predicate is false.",
+		Run: migrationGuards})
+}
+
+// consistencySwitches finds, in fn, the decision blocks `switch { case refFound && entryFound: … }` by their
+// leading If on a found-flag phi whose false assignment sits behind errors.Is(err, ErrReferenceNotFound).
+func foundFlag(v ssa.Value) string {
+	phi, ok := v.(*ssa.Phi)
+	if !ok || phi.Type().String() != "bool" {
+		return ""
+	}
+	for i, e := range phi.Edges {
+		if b, isC := eng.ConstBool(e); isC && !b {
+			for _, g := range eng.GuardsAt(phi.Block().Preds[i]) {
+				if k, _, ok := eng.RootCall(g.Cond); ok && k.Name() == "errors.Is" && g.Pol {
+					if gl := eng.GlobalLoad(k.Arg(1)); gl != nil {
+						switch gl.Name() {
+						case "ErrReferenceNotFound":
+							return "refFound"
+						case "ErrRSLEntryNotFound":
+							return "entryFound"
+						}
+					}
+				}
+			}
+		}
+	}
+	return ""
+}
+
+func reconcileGates(c *Ctx, r *R) {
+	fn := r.Fn("internal/policy.ReconcileStaging")
+	if fn == nil {
+		return
+	}
+	// the two lookups of the latest log entry
+	var lookups []Call
+	for _, k := range eng.CallsTo(fn, false, "pkg/rsl.GetLatestReferenceUpdaterEntry") {
+		lookups = append(lookups, k)
+	}
+	refOf := func(k Call) string {
+		_, ctors, _ := optionNames(k)
+		if f, ok := optionCtor(ctors, "ForReference"); ok {
+			s, _ := eng.ConstString(f.Arg(0))
+			return s
+		}
+		return ""
+	}
+	var polLk, stLk *Call
+	for i := range lookups {
+		switch refOf(lookups[i]) {
+		case refPolicy:
+			polLk = &lookups[i]
+		case refStaging:
+			stLk = &lookups[i]
+		}
+	}
+	if polLk == nil || stLk == nil {
+		r.Bad("both-checked", fn.Pos(), "ReconcileStaging does not look up the latest log entry of both the policy and the policy-staging reference")
+		return
+	}
+	r.Site(2)
+	mustPass(c, r, "both-checked", fn, isSuccessReturn, eng.NewCut().AddInstrs(stLk.Instr),
+		"success is reported only after the policy-staging reference was compared with its latest log entry",
+		"ReconcileStaging can report success without the policy-staging reference having been compared with its latest log entry (Apply would go on with an unrecorded staging tip)")
+	mustPass(c, r, "policy-checked", fn, isSuccessReturn, eng.NewCut().AddInstrs(polLk.Instr),
+		"success is reported only after the policy reference was compared with its latest log entry", "ReconcileStaging can report success without the policy reference having been compared with its latest log entry")
+	// the two decision blocks
+	atoms := func(v ssa.Value) (string, bool, bool) {
+		if n := foundFlag(v); n != "" {
+			return n, true, true
+		}
+		if k, _, ok := eng.RootCall(v); ok && k.Method() == "Equal" && eng.PMethod("GetTargetID", nil)(k.Recv()) {
+			return "tipEq", true, true
+		}
+		// the outcome of the first decision carried to the second: a bool phi defined before the staging lookup
+		if phi, ok := v.(*ssa.Phi); ok && phi.Type().String() == "bool" && phi.Block().Dominates(stLk.Block()) && phi.Block() != stLk.Block() {
+			return "policyExists", true, true
+		}
+		return "", false, false
+	}
+	n := 0
+	for _, b := range fn.Blocks {
+		if len(b.Instrs) == 0 {
+			continue
+		}
+		iff, ok := b.Instrs[len(b.Instrs)-1].(*ssa.If)
+		if !ok || foundFlag(iff.Cond) != "refFound" {
+			continue
+		}
+		// only the head of a switch: not itself reached from another flag test of the same switch
+		head := true
+		for _, p := range b.Preds {
+			if len(p.Instrs) > 0 {
+				if pi, ok := p.Instrs[len(p.Instrs)-1].(*ssa.If); ok && foundFlag(pi.Cond) != "" {
+					head = false
+				}
+			}
+		}
+		if !head {
+			continue
+		}
+		n++
+		which := "policy"
+		if stLk.Block().Dominates(b) {
+			which = "staging"
+		}
+		names := []string{"refFound", "entryFound", "tipEq"}
+		if which == "staging" {
+			names = append(names, "policyExists")
+		}
+		runTable(c, r, dtable{key: "consistency:" + which, fn: fn, start: b, idx: len(b.Instrs) - 1, what: which + " reference vs. log entry", names: names, atoms: atoms,
+			outcome: func(in ssa.Instruction) string {
+				if l := retLabel(in); l != "" {
+					return l
+				}
+				if ci, ok := in.(ssa.CallInstruction); ok {
+					k := Call{Instr: ci, Callee: eng.CalleeOf(ci)}
+					if k.Method() == "GetReference" || k.Method() == "KnowsCommit" || k.Method() == "GetCommonAncestor" || k.Name() == "internal/policy.LoadCurrentState" {
+						return "go-on"
+					}
+					// the scenario analysis that follows the checks starts by comparing the two tips
+					if k.Method() == "Equal" && k.Recv() != nil && !eng.PMethod("GetTargetID", nil)(k.Recv()) {
+						return "go-on"
+					}
+				}
+				// bookkeeping flags of the original shape (`policyFound`, `stagingFound`) are evaluated by the walk
+				return ""
+			},
+			spec: func(a map[string]bool) string {
+				if (a["refFound"] && a["entryFound"] && !a["tipEq"]) || a["refFound"] != a["entryFound"] {
+					return "err:ErrInvalidPolicy"
+				}
+				// without an applied policy there is nothing to reconcile with: success is reported
+				// once the staging reference was found consistent; otherwise reconciliation goes on
+				if which == "staging" && !a["policyExists"] {
+					return "ok"
+				}
+				return "go-on"
+			}})
+	}
+	r.Check(n == 2, "two-consistency-decisions", fn.Pos(), "two consistency decisions (policy, staging)", "expected two reference-vs-log consistency decisions in ReconcileStaging")
+}
+
+func namesRegistered(c *Ctx, r *R) {
+	fn := r.Fn("(*internal/policy.State).preprocess")
+	if fn == nil {
+		return
+	}
+	isNames := eng.PField("ruleNames", nil)
+	var has, adds []Call
+	for _, k := range eng.Calls(fn, false) {
+		if k.Callee == nil || k.Recv() == nil {
+			continue
+		}
+		rv := k.Recv()
+		if u, ok := rv.(*ssa.UnOp); ok && u.Op == token.MUL && !isNames(rv) {
+			rv = u.X // value receiver: the set is dereferenced first
+		}
+		if !isNames(rv) {
+			continue
+		}
+		switch k.Callee.Name() {
+		case "Has":
+			has = append(has, k)
+		case "Add":
+			adds = append(adds, k)
+		}
+	}
+	r.Check(len(has) == 2 && len(adds) == 2, "sites", fn.Pos(), "two duplicate tests and two registrations (primary rule file, delegated rule files)", "expected two ruleNames.Has and two ruleNames.Add sites in preprocess")
+	heads := loopHeads(fn)
+	for i, h := range has {
+		r.Site(1)
+		var addI []ssa.Instruction
+		for _, a := range adds {
+			if sameObjVal(a.Arg(0), h.Arg(0)) || (eng.PMethod("ID", nil)(a.Arg(0)) && eng.PMethod("ID", nil)(h.Arg(0))) {
+				addI = append(addI, a.Instr)
+			}
+		}
+		b, idx := eng.After(h.Instr)
+		p := eng.FindPath(b, idx, func(in ssa.Instruction) bool { return heads[in] || isSuccessReturn(in) }, eng.NewCut().AddInstrs(addI...))
+		if p != nil {
+			r.Bad("registered:"+itoa(i+1), h.Pos(), "after the duplicate test the next rule can be reached without this rule's name having been registered (ruleNames.Add skipped): a later rule with the same name is not detected; witness %s", c.DescribePath(p))
+		} else {
+			r.Ok("registered:"+itoa(i+1), h.Pos(), "every rule name that passes the duplicate test is registered before the next rule")
+		}
+	}
+}
+
+func migrationGuards(c *Ctx, r *R) {
+	for _, spec := range []string{"internal/tuf/migrations.MigrateRootMetadataV01ToV02", "internal/tuf/migrations.MigrateTargetsMetadataV01ToV02"} {
+		fn := r.Fn(spec)
+		if fn == nil {
+			continue
+		}
+		short := spec[strings.LastIndex(spec, ".")+1:]
+		src := fn.Params[0]
+		heads := loopHeads(fn)
+		seen := map[string]bool{}
+		for _, b := range fn.Blocks {
+			for _, in := range b.Instrs {
+				st, ok := in.(*ssa.Store)
+				if !ok {
+					continue
+				}
+				fa, ok := st.Addr.(*ssa.FieldAddr)
+				if !ok {
+					continue
+				}
+				field := fieldNameOf(fa)
+				// only fields of the new metadata objects (allocated / constructed in this function)
+				if !strings.Contains(fa.X.Type().String(), "internal/tuf/v02.") {
+					continue
+				}
+				r.Site(1)
+				bad := ""
+				for _, g := range eng.GuardsAt(b) {
+					if heads[g.If] {
+						continue // a loop over a source collection
+					}
+					// allowed: <src>.<F> != nil (comma-ok / len forms included) where F is a field of the source metadata
+					okG := false
+					if bo, isB := g.Cond.(*ssa.BinOp); isB && (bo.Op == token.NEQ || bo.Op == token.EQL) {
+						for _, pair := range [][2]ssa.Value{{bo.X, bo.Y}, {bo.Y, bo.X}} {
+							if eng.IsNilConst(pair[1]) {
+								if _, base, isF := eng.FieldLoad(pair[0]); isF {
+									for _, root := range eng.Roots(base) {
+										if root == ssa.Value(src) {
+											okG = (bo.Op == token.NEQ) == g.Pol
+										}
+									}
+								}
+							}
+						}
+					}
+					if !okG {
+						bad = c.Rel(eng.InstrPos(g.If))
+					}
+				}
+				key := "guard:" + short + ":" + field
+				if seen[key] {
+					continue
+				}
+				seen[key] = true
+				if bad != "" {
+					r.Bad(key, st.Pos(), "the copy of %s in %s is guarded by a condition (at %s) that is not a nil-test of the corresponding source field: for inputs on which that condition is false the data is dropped by the migration", field, short, bad)
+				} else {
+					r.Ok(key, st.Pos(), "%s is copied unconditionally, per element, or under a nil-test of its own source field", field)
+				}
+			}
+		}
+	}
+}
